@@ -10,7 +10,7 @@ use axum::{
     routing::{get, get_service, post},
     Json, Router,
 };
-use easy_error::{ensure, Error};
+use easy_error::{ensure, err_msg, Error};
 use futures::StreamExt;
 use prometheus::{
     register_histogram_vec, register_int_counter_vec, Encoder, HistogramVec, IntCounterVec,
@@ -118,12 +118,15 @@ impl MetricsServer {
             .layer(TraceLayer::new_for_http());
         // .fallback(not_found.into_service());
 
+        // bind here, where a failure (address in use, not a local address) can still be reported as the
+        // start-up error it is: Server::bind() panics on it, and it did so inside the spawned task
+        let server = axum::Server::try_bind(&self.bind)
+            .map_err(|e| err_msg(format!("metrics: failed to bind {}: {}", self.bind, e)))?;
         tokio::spawn(async move {
             info!("metrics server listening on {}", self.bind);
-            axum::Server::bind(&self.bind)
-                .serve(root.into_make_service())
-                .await
-                .unwrap();
+            if let Err(e) = server.serve(root.into_make_service()).await {
+                tracing::error!("metrics server ended: {}", e);
+            }
         });
 
         Ok(())
